@@ -233,9 +233,22 @@ def run_impl(inp, extra_kwargs=None, predictor=None):
     entry = inp.get("entry", "link_iter")
     levels = []
     if entry == "link_iter":
+        # a third of the movies come out of a generator that RE-USES one buffer for every frame (the
+        # array handed over for frame k is overwritten when frame k+1 is produced): what the linker
+        # needs from a level it has to keep itself
+        reuse_buf = (len(frames) + dim + inp.get("memory", 0)) % 3 == 0
+        nmax = max([len(p) for p in frames] + [1])
+
         def it():
+            buf = np.empty((nmax, dim), dtype=float)
             for k, pts in enumerate(frames):
-                yield t0 + k * ts, np.array(pts, dtype=float).reshape(len(pts), dim) * scale_of(inp)
+                a = np.array(pts, dtype=float).reshape(len(pts), dim) * scale_of(inp)
+                if reuse_buf:
+                    buf[:len(pts)] = a
+                    buf[len(pts):] = -12345.0
+                    yield t0 + k * ts, buf[:len(pts)]
+                else:
+                    yield t0 + k * ts, a
         gen = tp.link_iter(it(), sr, **kw)
         # two kinds of consumer: one reads each yielded list at once, the other keeps the yielded
         # objects and reads them when the generator is exhausted (`list(tp.link_iter(...))`): what was
